@@ -21,6 +21,8 @@ DRIVERS = ('driver_pipeline',)
 THEOREMS = [
     'PbBss.C17.axes_contract',
     'PbBss.C17.axes_contract_bf',
+    'PbBss.C17.axes_alignment_bookkeeping',
+    'PbBss.C17.ideal_mask_psd',
     'PbBss.C17.ideal_noise_psd_quadratic_form',
     'PbBss.C17.mvdr_leakage_bound',
     'PbBss.C17.sir_bound',
@@ -48,14 +50,18 @@ ASSUMPTIONS = [
     'numeric corollary: eps / sigma_k <= 1e-4 and ||v_ZF||^2 <= 10 give SIR >= 1000 (30 dB) per bin; aggregated over '
     'bins and weighted by activity fractions p_j <= 1 as output_sxr does (sir_weighted_bound, sir_aggregate_over_bins)',
     'search domain: K 2..3, D K+1..8, F in {33, 65, 257}, T 60..200, sources disjoint in time-frequency (one owner per '
-    'frame), complex Gaussian steering vectors per bin, noise 40..60 dB below the weakest source, every source active in '
+    'frame), complex Gaussian steering vectors per bin CONDITIONED on separability (for unit-norm steering vectors a '
+    'zero-forcing vector of squared norm <= 10 exists for every source, i.e. pairwise |cos|^2 <= 0.9 for K = 2 - the '
+    'hypothesis of sir_30dB; about 1 % of the bins are redrawn at D = K+1 = 3; with |cos|^2 >= 0.99 in a bin the cWMM '
+    '(concentration capped at max_concentration=500) merges the two sources of that bin and the scene is not separable), noise 40..60 dB below the weakest source, every source active in '
     '>= 15 % of the frames, permutation fields with a 70..100 % majority order in the first DHTV segment and arbitrary '
     'elsewhere, shipped 512 plan or custom plans with shift <= width/3 whose later segments overlap the aligned band by '
     '>= 2/3, blur 0.5..0.9, 10 EM iterations',
 ]
 
 from pb_bss.extraction import (  # noqa: E402
-    apply_beamforming_vector, get_bf_vector, get_mvdr_vector_souden, get_power_spectral_density_matrix, get_wmwf_vector)
+    apply_beamforming_vector, get_mvdr_vector, get_mvdr_vector_souden, get_power_spectral_density_matrix,
+    get_wmwf_vector)
 from pb_bss.evaluation.sxr_module import output_sxr  # noqa: E402
 from pb_bss import permutation_alignment as pa  # noqa: E402
 
@@ -97,7 +103,8 @@ def _ideal_frames(rng, K, D, a, nsig, amp_noise):
 
 
 def _corr_ideal(ctx):
-    """ops `scene`, `souden`, `wmwf`, `sir`: ideal-mask model vs the real PSD / Souden / WMWF / output_sxr code"""
+    """ops `scene`, `souden`, `wmwf`, `mvdr`, `sir`: ideal-mask model vs the real PSD / Souden / WMWF / MVDR /
+    output_sxr code on bins whose ideal-mask PSDs are exactly `sigma_j a_j a_j^H + eps_j 1`"""
     rng = ctx.rng
     n = ctx.n(40, 600)
     for it in range(n):
@@ -112,6 +119,8 @@ def _corr_ideal(ctx):
         amp = rng.uniform(0.005, 0.02, size=K)
         for f in range(F):
             a = pu.cnormal(rng, K, D)
+            while pu.zf_gain(a) > 1e3:          # numerically collinear steering vectors only spoil the tolerances
+                a = pu.cnormal(rng, K, D)
             Y, owner, images, noise, sigma, epsj = _ideal_frames(rng, K, D, a, nsig, amp)
             Ys.append(Y); owners.append(owner); imgs.append(images); nois.append(noise)
             sigs.append(sigma); epss.append(epsj); As.append(a)
@@ -134,10 +143,17 @@ def _corr_ideal(ctx):
             ref = int(ref)
             W[k] = w_code
             mu = float(rng.uniform(0.0, 2.0))
-            w_wmwf = get_wmwf_vector(target, nn, reference_channel=ref, distortion_weight=mu)
+            # plain MVDR with the true steering vectors, all bins stacked: (F, D) ATFs against (F, D, D) PSDs
+            try:
+                w_mvdr = get_mvdr_vector(np.stack([As[f][k] for f in range(F)]), nn)
+                if w_mvdr.shape != (F, D):
+                    raise ValueError(f'shape {w_mvdr.shape}')
+            except Exception as e:  # noqa
+                ctx.corr('mvdr-from-solve(get_mvdr_vector, stacked bins)', False,
+                         f'get_mvdr_vector((F,D) ATFs, (F,D,D) PSDs) failed: {type(e).__name__}: {e}')
+                w_mvdr = None
             for f in range(F):
                 a, sigma = As[f], sigs[f]
-                eps = float(np.sum(epss[f][others]))
                 # (1) scene: model PSDs vs real PSDs
                 lines.append(f'scene {K} {D} {k} {fbits(sigma)} {fbits(epss[f])} {cbits(a)}')
                 meta.append(('scene', dict(nn=nn[f], xx=target[f], K=K, D=D)))
@@ -153,7 +169,12 @@ def _corr_ideal(ctx):
                 meta.append(('wmwf', dict(w=w1m, res=res)))
                 # (3) SIR / leakage as quadratic forms for the REAL Souden vector of the pipeline (target PSD incl. eps_k 1)
                 v = pu.zero_forcing(a, k)
-                for tag, wq in (('pipeline', w_code[f]), ('rank-one', w1)):
+                cands = [('pipeline', w_code[f]), ('rank-one', w1)]
+                if w_mvdr is not None:
+                    lines.append(f'mvdr {D} {cbits(a[k])} {cbits(u)}')
+                    meta.append(('mvdr', dict(w=w_mvdr[f], res=res)))
+                    cands.append(('mvdr', w_mvdr[f]))
+                for tag, wq in cands:
                     lines.append(f'sir {K} {D} {k} {fbits(sigma)} {fbits(epss[f])} {fbits(p)} {cbits(a)} '
                                  f'{cbits(wq)} {cbits(v)}')
                     meta.append(('sir', dict(
@@ -179,11 +200,13 @@ def _corr_ideal(ctx):
                 ctx.corr('ideal-psd(get_power_spectral_density_matrix)', ok,
                          f'model noise PSD / target PSD differ from the code: max|d|={np.max(np.abs(nn_m - m["nn"])):.3g}',
                          {'nn_code': m['nn'], 'nn_model': nn_m})
-            elif op in ('souden', 'wmwf'):
+            elif op in ('souden', 'wmwf', 'mvdr'):
                 w_m = parse_complex(o)
                 # solver residual enters with the condition number: tolerance 1e-6 rel (task statement)
                 ok = _close(w_m, m['w'], rtol=1e-6)
-                ctx.corr(f'{op}-rank-one(get_{"mvdr_vector_souden" if op == "souden" else "wmwf_vector"})', ok,
+                fn = {'souden': 'rank-one(get_mvdr_vector_souden)', 'wmwf': 'rank-one(get_wmwf_vector)',
+                      'mvdr': 'from-solve(get_mvdr_vector, stacked bins)'}[op]
+                ctx.corr(f'{op}-{fn}', ok,
                          f'model {op} vector differs: max|d|={np.max(np.abs(w_m - m["w"])):.3g} solver residual {m["res"]:.2g}',
                          {'w_code': m['w'], 'w_model': w_m})
             else:
@@ -194,14 +217,15 @@ def _corr_ideal(ctx):
                       _close(x[7], m['sig'], rtol=1e-6) and _close(x[8], m['intf'], rtol=1e-6, atol=1e-300))
                 ctx.corr('sir-quadratic-forms(get_mvdr_vector_souden,apply_beamforming_vector)', ok,
                          f'model {x.tolist()} code leak={m["leak"]} sig={m["sig"]} intf={m["intf"]}', {'model': x})
-                if m['tag'] == 'rank-one':
+                if m['tag'] in ('rank-one', 'mvdr'):
                     # the proved inequalities must be visible on the real vector (up to rounding), after scaling it to
                     # w^H a_k = 1: leakage <= eps ||v||^2  and  SIR >= sigma_k / (eps ||v||^2)
-                    ctx.corr('leakage<=zero-forcing-bound(real Souden vector, rank-one target)',
+                    which = 'real Souden vector, rank-one target' if m['tag'] == 'rank-one' else 'real get_mvdr_vector'
+                    ctx.corr(f'leakage<=zero-forcing-bound({which})',
                              bool(x[3] / x[9] <= x[4] * (1 + 1e-6)), f'leakage {x[3] / x[9]} > bound {x[4]}')
-                    ctx.corr('sir>=sigma_k/(eps||v||^2)(real Souden vector, rank-one target)',
+                    ctx.corr(f'sir>=sigma_k/(eps||v||^2)({which})',
                              bool(x[5] >= x[6] * (1 - 1e-6)), f'SIR {x[5]} < lower bound {x[6]}')
-                else:
+                if m['tag'] == 'pipeline':
                     agg_sig[m['k']] += x[7]; agg_int[m['k']] += x[8]
         sir_model = agg_sig / agg_int
         ok = _close(10 * np.log10(sir_model), sir_db, rtol=1e-6, atol=1e-6)
@@ -330,7 +354,12 @@ def output_sir(beamformer, noise_variant, model, steering, owner, source, noise,
     if why:
         return Skip(why)
     r = _chain(model, steering, owner, source, noise, perm, blur, dhtv, iterations, global_variant)
-    W, _ = pu.design_beamformers(beamformer, r['Y'], r['aligned'], noise_variant)
+    try:
+        W, _ = pu.design_beamformers(beamformer, r['Y'], r['aligned'], noise_variant)
+    except Exception as e:  # the property allows no exception on a separable scene
+        return Fail(f'exception:{beamformer}:{type(e).__name__}',
+                    f'mask-based PSDs (F,K,D,D) from the aligned posteriors + get_bf_vector({beamformer!r}) ({model}, noise PSD '
+                    f'{noise_variant}) raised {type(e).__name__}: {str(e)[:200]}')
     F, K, D = steering.shape
     if W.shape != (K, F, D):
         return Fail(f'bf-shape:{beamformer}', f'beamforming vectors have shape {W.shape[1:]}, expected {(F, D)}')
